@@ -421,9 +421,17 @@ pub fn child(seed: u64) -> i32 {
         }));
     }
     let observed: Arc<Mutex<Vec<Vec<Option<u32>>>>> = Arc::new(Mutex::new(vec![]));
+    let installed_main = Arc::new(std::sync::atomic::AtomicBool::new(false));
     for _ in 0..emitters {
         let (b, log, observed) = (barrier.clone(), log.clone(), observed.clone());
+        let variant = seed.wrapping_add(hs.len() as u64);
+        let installed = installed_main.clone();
         hs.push(std::thread::spawn(move || {
+            // local scopes used and left before the race must not keep this thread from the winner
+            if let Err(e) = super::c01::preamble(variant, "emitter thread") {
+                println!("CHILD-FAIL pre-install-local-scope-wrong {}", e);
+                std::process::exit(1);
+            }
             b.wait();
             let mut mine = vec![];
             let me = std::thread::current().id();
@@ -434,13 +442,30 @@ pub fn child(seed: u64) -> i32 {
                 let evs: Vec<_> = l.iter().filter(|e| e.thread == me).collect();
                 mine.push(if evs.len() > before { Some(evs[evs.len() - 1].rec) } else { None });
             }
+            // one more probe once every installer has returned: it must reach the winner
+            while !installed.load(Ordering::Acquire) {
+                std::thread::yield_now();
+            }
+            let before = log.lock().unwrap().iter().filter(|e| e.thread == me).count();
+            metrics::describe_counter!("probe", "d");
+            let l = log.lock().unwrap();
+            let evs: Vec<_> = l.iter().filter(|e| e.thread == me).collect();
+            mine.push(if evs.len() > before { Some(evs[evs.len() - 1].rec) } else { None });
+            drop(l);
+            if mine.last() == Some(&None) {
+                println!("CHILD-FAIL emission-after-install-not-delivered an emitter thread (local-scope preamble {}) does not reach the installed recorder after every installer returned", variant % 6);
+                std::process::exit(1);
+            }
             observed.lock().unwrap().push(mine);
         }));
     }
-    for h in hs {
+    for (i, h) in hs.into_iter().enumerate() {
         if h.join().is_err() {
             println!("CHILD-FAIL panic-in-thread a racing thread panicked");
             return 1;
+        }
+        if i + 1 == k {
+            installed_main.store(true, Ordering::Release);
         }
     }
     let results = results.lock().unwrap();
